@@ -72,10 +72,19 @@ def gen_contribs(rng, n, pathvars, rich):
         acts.append({"a": "set", "var": n.upper() + "_MODE", "own": False, "val": "mode-" + n})
     if rich and rng.random() < 0.2:
         acts.append({"a": "alias", "key": "run_" + n, "val": "echo run " + n})
+    if rich and rng.random() < 0.14:
+        # the product's own directory spelled ${<NAME>_DIR} in the *middle* of a value: -L${N_DIR}/lib (blank-delimited
+        # variable) or /opt/share/n:${N_DIR}/man (text, and a delimiter, in front of the reference; a value that *starts*
+        # with the delimiter would add an empty element, which is C12's string level)
+        if "LDF" in pathvars and rng.random() < 0.6:
+            acts.append({"a": "prepend", "var": "LDF", "own": False, "val": "-L%D/lib", "append": rng.random() < 0.5})
+        else:
+            acts.append({"a": "prepend", "var": rng.choice(["PATH", "LIBP"]), "own": False,
+                         "val": "/opt/share/%s:%%D/man" % n, "append": rng.random() < 0.5})
     return acts
 
 
-def gen_graph(rng, cyc=False, rich=True, nmin=3, nmax=7):
+def gen_graph(rng, cyc=False, rich=True, nmin=3, nmax=7, generic=False):
     """DAG by name order (product i depends on products of larger index); with cyc, a few back edges
     create name-level cycles across versions (the D17 class)."""
     k = rng.randint(nmin, nmax)
@@ -86,6 +95,8 @@ def gen_graph(rng, cyc=False, rich=True, nmin=3, nmax=7):
     space_root = rng.random() < 0.1
     if rng.random() < 0.4:      # a blank delimiter only where no directory contains a blank (C12 owns that case)
         pathvars["XP"] = rng.choice([";", ",", "|"] + ([] if spaces or space_root else [" "]))
+    if rich and not spaces and not space_root and rng.random() < 0.35:
+        pathvars["LDF"] = " "    # a blank-delimited flags variable (envAppend(LDF, -L${X_DIR}/lib, " "))
     decls, cur, beta = [], {}, {}
     for i, n in enumerate(names):
         vs = rng.sample(pool, rng.randint(1, 3))
@@ -141,13 +152,48 @@ def gen_graph(rng, cyc=False, rich=True, nmin=3, nmax=7):
             beta[n] = rng.choice(vs)
     g = {"names": names, "pool": pool, "pathvars": pathvars, "space_root": space_root,
          "decls": decls, "tags": {"current": cur, "beta": beta}, "cyc": cyc, "nstacks": 1}
+    if rich and rng.random() < 0.15:
+        # ONE table file shared by every version of a product (declare -m /site/<name>.table): the table speaks of
+        # ${PRODUCT_DIR} and ${PRODUCT_VERSION}; a switch between the versions reads the same file for two products
+        multi = sorted({d["name"] for d in decls if sum(1 for x in decls if x["name"] == d["name"]) > 1})
+        if multi:
+            ns = rng.choice(multi)
+            mine_ = [d for d in decls if d["name"] == ns]
+            t0 = mine_[0]["table"] + [{"a": "prepend", "var": "PATH", "own": True, "val": "/v%V/bin", "append": rng.random() < 0.5}]
+            if rng.random() < 0.5:
+                t0.append({"a": "set", "var": ns.upper() + "_VER", "own": False, "val": "%V"})
+            import copy as _copy
+            for d in mine_:
+                d["table"] = _copy.deepcopy(t0)
+                d["shared"] = "site/%s.table" % ns
+            g["shared_table"] = ns
+    if generic:
+        # a product declared -f generic (found through the fallback flavors; its SETUP_ record says -f generic).  Only in
+        # the aimed stream gen_generic_keep_case: the flavor fallback loop of Eups.setup is not modelled (see there)
+        cand = [n for n in names if n != g.get("shared_table")]
+        ng = rng.choice(cand)
+        for d in decls:
+            if d["name"] == ng:
+                d["flavor"] = "generic"
+        g["generic"] = ng
+    if rich and rng.random() < 0.2:
+        # a bystander whose name is <requested product>_<suffix> (pex / pex_policy): SETUP_PEX vs SETUP_PEX_POLICY; it
+        # shares version names with the product it is named after; nothing depends on it and it depends on nothing
+        n0 = rng.choice(names)
+        pn = n0 + rng.choice(["_policy", "_p", "_config"])
+        vs0 = [d["ver"] for d in decls if d["name"] == n0]
+        for v in sorted(set([rng.choice(vs0)] + ([rng.choice(pool)] if rng.random() < 0.5 else []))):
+            decls.append({"name": pn, "ver": v, "sub": "Linux/%s/%s" % (pn, v), "table": gen_contribs(rng, pn, pathvars, rich)})
+        cur[pn] = rng.choice([d["ver"] for d in decls if d["name"] == pn])
+        g["names"] = names + [pn]
+        g["prefix_pair"] = [n0, pn]
     if rich and rng.random() < 0.08:
         # a "meta" product: every version declared without a directory (PROD_DIR = none); its tables hold literals only
-        n0 = rng.choice(names)
+        n0 = rng.choice([n for n in names if n not in (g.get("shared_table"), g.get("generic"))] or names)
         for d in decls:
             if d["name"] == n0:
                 d["sub"] = None
-                lit = lambda a: dict(a, own=False, val="/meta/%s/%s%s" % (n0, d["ver"], a["val"]), more=[]) if a.get("a") in ("prepend", "set") else a
+                lit = lambda a: dict(a, own=False, val="/meta/%s/%s%s" % (n0, d["ver"], a["val"].replace("%D", "").replace("%V", "").replace(":", "")), more=[]) if a.get("a") in ("prepend", "set") else a
                 d["table"] = [(dict(seg, **{"if": [lit(x) for x in seg["if"]], "else": [lit(x) for x in seg["else"]]}) if "if" in seg else lit(seg))
                               for seg in d["table"]]
     if rich and rng.random() < 0.3:
@@ -164,6 +210,8 @@ def add_second_stack(rng, g):
     cur1 = {}
     mine = []
     for d in list(g["decls"]):
+        if d["name"] == g.get("generic"):
+            continue        # the flavor fallback loop is not modelled: a generic-flavored product lives in one stack only
         if rng.random() < 0.4:
             t = copy.deepcopy(d["table"])
             t.append({"a": "prepend", "var": "PATH", "own": True, "val": "/mine", "append": rng.random() < 0.5})
@@ -171,11 +219,13 @@ def add_second_stack(rng, g):
                 t = [x for x in t if not ("a" in x and x["a"] == "set")]
             mine.append({"name": d["name"], "ver": d["ver"], "stack": 1, "sub": "Linux/%s/%s" % (d["name"], d["ver"]), "table": t})
     for n in g["names"]:
-        if rng.random() < 0.2:
+        if n != g.get("generic") and rng.random() < 0.2:
             v = rng.choice([x for x in ["4", "4.1", "5"]])
             mine.append({"name": n, "ver": v, "stack": 1, "sub": "Linux/%s/%s" % (n, v),
                          "table": [{"a": "prepend", "var": "PATH", "own": True, "val": "/bin", "append": False}]})
     for d in mine:
+        if d["name"] == g.get("generic"):
+            d["flavor"] = "generic"          # a product is declared under one flavor wherever it is declared
         if rng.random() < 0.4:
             cur1[d["name"]] = d["ver"]
     g["decls"] += mine
@@ -212,6 +262,8 @@ def gen_request(rng, g, op=None, plain=False):
     req["path"] = [0] if g.get("nstacks", 1) == 1 else rng.choice([[0], [0], [1, 0], [1, 0], [0, 1], [1]])
     # the entry point: eups.app.setup called directly, or the command line of `eups_setup` (setupcmd.EupsSetup:
     # option parsing, -j / -S / -k / -t / -E / -u / -Z glue, the printed command text)
+    if req["name"] == g.get("generic"):
+        req["keep"] = False       # (see add_second_stack) the already-set-up fallback of the first flavor round is not modelled
     req["cli"] = rng.random() < 0.3
     req["types"] = []                               # --type (set per history by gen_case)
     req["just_flag"] = rng.random() < 0.5          # max_depth 0 is written -j (else -S 0)
@@ -277,6 +329,58 @@ def small_graphs():
         yield {"graph": g, "prior": {"PATH": BASE_PATH}, "prior_mode": "exhaustive", "history": [dict(h) for h in hist]}
 
 
+def aim_new_classes(rng, g, hist, plain=False):
+    """Aim a history at the input classes added in round 3 (each only when the graph has the feature)."""
+    base = dict(hist[0])
+    mk = lambda name, ver=None, **kw: dict(base, op="setup", name=name, ver=ver, keep=False, max_depth=-1, tags=[], **kw)
+    if g.get("prefix_pair") and rng.random() < 0.6:
+        # the bystander <p>_<suffix> is set up first, then <p> (not set up yet) is requested
+        n0, pn = g["prefix_pair"]
+        v0 = rng.choice([d["ver"] for d in g["decls"] if d["name"] == pn and d.get("stack", 0) == 0])
+        second = dict(hist[0], name=n0, op="setup")
+        if rng.random() < 0.5:
+            second["ver"] = {"v": v0} if any(d["name"] == n0 and d["ver"] == v0 for d in g["decls"]) else None
+        hist[:1] = [mk(pn, {"v": v0}), second]
+    if g.get("shared_table") and rng.random() < 0.6:
+        # switch between two versions of the product whose versions share one table file
+        ns = g["shared_table"]
+        vs = [d["ver"] for d in g["decls"] if d["name"] == ns and d.get("stack", 0) == 0]
+        a, b = rng.sample(vs, 2)
+        hist[:0] = [mk(ns, {"v": a}), mk(ns, {"v": b})]
+
+
+def gen_generic_keep_case(rng):
+    """C04 class "keep with a set-up product of a non-session flavor": a product declared -f generic (found through the
+    fallback flavors, SETUP_ record `-f generic`) is set up by an explicit request; every later request carries --keep and
+    names another product (preferably one whose table asks for the generic product, in whatever version).  The generic
+    product is therefore only ever resolved again through the `keep` entry at the head of the VRO — the one place where the
+    flavor fallback loop of Eups.setup (round 1 over Linux declarations with its already-set-up fallback, round 2 over
+    generic ones), which the model does not have, cannot make a difference."""
+    g = gen_graph(rng, cyc=False, generic=True)
+    if g.get("nstacks", 1) > 1:
+        g["decls"] = [d for d in g["decls"] if d.get("stack", 0) == 0]
+        g["nstacks"] = 1
+        g.pop("tags1", None)
+    ng = g["generic"]
+    vs = [d["ver"] for d in g["decls"] if d["name"] == ng]
+    users = sorted({d["name"] for d in g["decls"] if d["name"] != ng and
+                    any(a.get("a") == "dep" and a["name"] == ng for _, a in flat_table(d["table"]))})
+    inexact = rng.random() < 0.2
+    def mk(name, ver, keep):
+        r = gen_request(rng, g, op="setup", plain=True)
+        r.update(name=name, ver=ver, keep=keep, inexact=inexact, path=[0])
+        return r
+    hist = [mk(ng, {"v": rng.choice(vs)}, False)]
+    others = [n for n in g["names"] if n != ng]
+    for _ in range(rng.randint(1, 3)):
+        n = rng.choice(users) if users and rng.random() < 0.7 else rng.choice(others)
+        r = mk(n, None, True)
+        if rng.random() < 0.3:
+            r["max_depth"] = rng.choice([1, 2])
+        hist.append(r)
+    return {"graph": g, "prior": {"PATH": BASE_PATH}, "prior_mode": "clean", "history": hist}
+
+
 def gen_case(rng, cyc=None, nreq=None, plain=False):
     if cyc is None:
         cyc = rng.random() < 0.1
@@ -293,6 +397,7 @@ def gen_case(rng, cyc=None, nreq=None, plain=False):
         r["inexact"] = inexact if (flip is None or k < flip) else not inexact
         r["types"] = list(types) if (tflip is None or k < tflip) else ([] if types else ["build"])
         hist.append(r)
+    aim_new_classes(rng, g, hist, plain)
     return {"graph": g, "prior": prior, "prior_mode": mode, "history": hist}
 
 
@@ -365,16 +470,22 @@ def spec_text(sp):
     raise ValueError(k)
 
 
-def act_text(a, pathvars):
+def spell(text, name):
+    """Table spelling of the placeholders in a value: %D = the product's own directory written ${<NAME>_DIR} (not
+    ${PRODUCT_DIR}), %V = ${PRODUCT_VERSION}."""
+    return text.replace("%D", "${%s_DIR}" % (name or "PRODUCT").upper()).replace("%V", "${PRODUCT_VERSION}")
+
+
+def act_text(a, pathvars, name=None):
     if a["a"] == "prepend":
         dl = pathvars.get(a["var"], ":")
-        val = dl.join(("${PRODUCT_DIR}" if o else "") + v for o, v in pvals(a))
+        val = spell(dl.join(("${PRODUCT_DIR}" if o else "") + v for o, v in pvals(a)), name)
         if "," in val or " " in val:
             val = '"%s"' % val
         third = "" if dl == ":" else ', "%s"' % dl
         return "%s(%s, %s%s)" % ("envAppend" if a["append"] else "envPrepend", a["var"], val, third)
     if a["a"] == "set":
-        return "envSet(%s, %s)" % (a["var"], ("${PRODUCT_DIR}" if a["own"] else "") + a["val"])
+        return "envSet(%s, %s)" % (a["var"], spell(("${PRODUCT_DIR}" if a["own"] else "") + a["val"], name))
     if a["a"] == "alias":
         return "addAlias(%s, %s)" % (a["key"], a["val"])
     if a["a"] == "dep":
@@ -385,17 +496,17 @@ def act_text(a, pathvars):
     raise ValueError(a)
 
 
-def table_text(table, pathvars):
+def table_text(table, pathvars, name=None):
     out = []
     for seg in table:
         if "if" in seg:
             out.append("if (type == %s) {" % seg.get("cond", "exact"))
-            out += ["   " + act_text(a, pathvars) for a in seg["if"]]
+            out += ["   " + act_text(a, pathvars, name) for a in seg["if"]]
             out.append("} else {")
-            out += ["   " + act_text(a, pathvars) for a in seg["else"]]
+            out += ["   " + act_text(a, pathvars, name) for a in seg["else"]]
             out.append("}")
         else:
-            out.append(act_text(seg, pathvars))
+            out.append(act_text(seg, pathvars, name))
     return "\n".join(out) + "\n"
 
 
@@ -429,6 +540,7 @@ class G:
         self.decl = {(d["name"], vk(d["ver"], d.get("stack", 0))): d for d in g["decls"]}
         self.flat = {k: flat_table(d["table"]) for k, d in self.decl.items()}
         self.names = sorted({d["name"] for d in g["decls"]})
+        self.flavors = {d["name"]: d["flavor"] for d in g["decls"] if d.get("flavor")}
         self.setvars = sorted({a["var"] for fl in self.flat.values() for _, a in fl if a["a"] == "set"})
         self.edges = {}                          # name -> set of names (any version, any guard)
         for (n, v), fl in self.flat.items():
@@ -506,12 +618,26 @@ class G:
     def cyclic_names(self):
         return {n for n in self.names if any(n in self.reach([m]) for m in self.edges.get(n, ()))}
 
+    def expand(self, n, v, text):
+        """the placeholders of a value, expanded for one declared version: %D its directory, %V its version name"""
+        return text.replace("%D", self.dir(n, v)).replace("%V", unvk(v)[0])
+
     def value(self, n, v, a):
-        return (self.dir(n, v) if a["own"] else "") + a["val"]
+        return self.expand(n, v, (self.dir(n, v) if a["own"] else "") + a["val"])
 
     def values(self, n, v, a):
-        """[(own?, string)] for every piece of a path action's value"""
-        return [(o, (self.dir(n, v) if o else "") + t) for o, t in pvals(a)]
+        """[(own?, string)] for every piece of a path action's value (a piece whose text itself holds the variable's
+        delimiter — `:${X_DIR}/man` — is split, empty pieces dropped)"""
+        dl = self.pathvars.get(a["var"], ":")
+        out = []
+        for o, t in pvals(a):
+            x = self.expand(n, v, (self.dir(n, v) if o else "") + t)
+            if "%" in t and not o:
+                dd = self.dir(n, v)
+                out += [((dd != "none" and (y == dd or y.startswith(dd + "/"))), y) for y in x.split(dl) if y]
+            else:
+                out.append((o, x))
+        return out
 
 
 # ================================================================================================
@@ -562,23 +688,36 @@ def install(g, root):
             os.makedirs(os.path.join(S, "tables"), exist_ok=True)
             tf = os.path.join(S, "tables", "%s-%s.table" % (d["name"], d["ver"]))
             with open(tf, "w") as f:
-                f.write(table_text(d["table"], g["pathvars"]))
+                f.write(table_text(d["table"], g["pathvars"], d["name"]))
             with open(os.path.join(S, "ups_db", d["name"], d["ver"] + ".version"), "w") as f:
                 f.write((VERSION_FILE % {"n": d["name"], "v": d["ver"], "sub": "none"}).replace(
                     "TABLE_FILE = %s.table" % d["name"], "TABLE_FILE = %s" % tf))
             continue
         pd = os.path.join(S, d["sub"])
         os.makedirs(os.path.join(pd, "ups"), exist_ok=True)
-        with open(os.path.join(pd, "ups", d["name"] + ".table"), "w") as f:
-            f.write(table_text(d["table"], g["pathvars"]))
+        vf = VERSION_FILE % {"n": d["name"], "v": d["ver"], "sub": d["sub"]}
+        if d.get("flavor"):             # declared -f generic: found through the fallback flavors
+            vf = vf.replace("FLAVOR = Linux", "FLAVOR = " + d["flavor"])
+        if d.get("shared"):
+            # ONE table file for every version of the product (declare -m /site/<name>.table): written once
+            tf = os.path.join(S, d["shared"])
+            os.makedirs(os.path.dirname(tf), exist_ok=True)
+            if not os.path.exists(tf):
+                with open(tf, "w") as f:
+                    f.write(table_text(d["table"], g["pathvars"], d["name"]))
+            vf = vf.replace("TABLE_FILE = %s.table" % d["name"], "TABLE_FILE = %s" % tf)
+        else:
+            with open(os.path.join(pd, "ups", d["name"] + ".table"), "w") as f:
+                f.write(table_text(d["table"], g["pathvars"], d["name"]))
         with open(os.path.join(S, "ups_db", d["name"], d["ver"] + ".version"), "w") as f:
-            f.write(VERSION_FILE % {"n": d["name"], "v": d["ver"], "sub": d["sub"]})
+            f.write(vf)
+    flav = {d["name"]: d["flavor"] for d in g["decls"] if d.get("flavor")}
     for k, S in enumerate(Ss):
         for t, m in stack_tags(g, k).items():
             for n, v in m.items():
                 os.makedirs(os.path.join(S, "ups_db", n), exist_ok=True)
                 with open(os.path.join(S, "ups_db", n, t + ".chain"), "w") as f:
-                    f.write(CHAIN_FILE % {"n": n, "v": v, "t": t})
+                    f.write((CHAIN_FILE % {"n": n, "v": v, "t": t}).replace("FLAVOR = Linux", "FLAVOR = " + flav.get(n, "Linux")))
     return Ss, ud
 
 
@@ -814,7 +953,8 @@ def canon_env(G_, env):
     for k, v in env.items():
         if k.startswith("SETUP_"):
             f = v.split()
-            if len(f) == 6 and f[2:4] == ["-f", "Linux"] and f[4] == "-Z" and f[5] in ROOTS and k == "SETUP_" + f[0].upper():
+            if len(f) == 6 and f[2:4] == ["-f", G_.flavors.get(f[0], "Linux")] and f[4] == "-Z" and f[5] in ROOTS \
+                    and k == "SETUP_" + f[0].upper():
                 recs[f[0]] = vk(f[1], ROOTS.index(f[5]))
             else:
                 recs[k] = "RAW:" + v
@@ -889,8 +1029,30 @@ def model_db(G_):
                 tb.append({"g": gd, "a": "dep", "name": a["name"], "opt": a["opt"], "just": a["just"], "ver": ver,
                            "vexpr": vexpr, "tags": list(a.get("tags", [])), "keep": bool(a.get("keep"))})
             elif a["a"] == "prepend":
-                tb.append({"g": gd, "a": "prepend", "var": a["var"], "append": a["append"],
-                           "vals": [{"own": o, "val": t} for o, t in pvals(a)]})
+                vals = []
+                dl = G_.pathvars.get(a["var"], ":")
+                for o, t in pvals(a):
+                    if "%" in t:        # a placeholder: the model gets the expanded string (own text stays own)
+                        x = G_.expand(n, v, t)
+                        if o:
+                            vals.append({"own": True, "val": x})
+                        else:
+                            # a piece that is the product's own directory (+ rest) is an own element, as the
+                            # driver tags the same string when it meets it in the environment
+                            dd = G_.dir(n, v)
+                            for y in x.split(dl):
+                                if y and dd != "none" and (y == dd or y.startswith(dd + "/")):
+                                    vals.append({"own": True, "val": y[len(dd):]})
+                                elif y:
+                                    vals.append({"own": False, "val": y})
+                    else:
+                        vals.append({"own": o, "val": t})
+                tb.append({"g": gd, "a": "prepend", "var": a["var"], "append": a["append"], "vals": vals})
+            elif a["a"] == "set":
+                x = dict(a)
+                x["g"] = gd
+                x["val"] = G_.expand(n, v, a["val"])
+                tb.append(x)
             else:
                 x = dict(a)
                 x["g"] = gd
@@ -909,7 +1071,7 @@ def model_request(G_, db, before, req, roots=None):
                    "inexact": req["inexact"], "tags": req["tags"], "path": req_path(req)}}
     if roots:
         # end to end: the model renders the command strings of eups.app.setup with the real stack roots
-        out["layout"] = {"roots": list(roots), "delims": dict(G_.pathvars), "flavor": "Linux",
+        out["layout"] = {"roots": list(roots), "delims": dict(G_.pathvars), "flavor": "Linux", "flavors": dict(G_.flavors),
                          "subst": [[ROOTS[k], roots[k]] for k in reversed(range(len(roots)))]}
     return out
 
@@ -1359,6 +1521,26 @@ def evaluate(ctx, pid, cases, stats, workers=12, extra=None):
                 ctx.hist("mixed_setup_types")
             if req.get("types"):
                 ctx.hist("setup_type=" + ",".join(req["types"]))
+            if im["outcome"] == "ok" and req["op"] == "setup":
+                b0 = canon_env(G_, r["before"])["recs"]
+                a0 = canon_env(G_, r["after"])["recs"]
+                g_ = case["graph"]
+                pp = g_.get("prefix_pair")
+                if pp and req["name"] == pp[0] and pp[1] in b0 and pp[0] not in b0:
+                    ctx.hist("class_prefix_bystander")
+                    stats["class_prefix_bystander"] = stats.get("class_prefix_bystander", 0) + 1
+                st = g_.get("shared_table")
+                if st and st in b0 and a0.get(st) not in (None, b0[st]):
+                    ctx.hist("class_shared_table_switch")
+                    stats["class_shared_table_switch"] = stats.get("class_shared_table_switch", 0) + 1
+                gn = g_.get("generic")
+                if gn and req["keep"] and gn in b0 and gn != req["name"] and gn in G_.reach([req["name"]]):
+                    ctx.hist("class_keep_generic")
+                    stats["class_keep_generic"] = stats.get("class_keep_generic", 0) + 1
+                if any("%D" in t for (n_, v_) in a0.items() if (n_, v_) in G_.decl
+                       for a_ in G_.acts(n_, v_, mode_of(req)) if a_["a"] == "prepend" for _, t in pvals(a_)):
+                    ctx.hist("class_mid_reference_set_up")
+                    stats["class_mid_reference"] = stats.get("class_mid_reference", 0) + 1
             for prop, clause, cls, detail in check_request(G_, req, r, stats, mixed=mixed):
                 if prop != pid:
                     continue
